@@ -21,9 +21,49 @@ def extra_pairs():
     return out
 
 
+def fragment_correspondence(rep, ctx):
+    """Model/RenderDoc.v diffable_fragment vs _diffable_fragment, char for char (the tree is encoded BEFORE the call: the code
+    unwraps ins/del in place)"""
+    import web_monitoring_diff.html_render_diff as h
+    from common import run_driver, to_str, rng_for, L
+    from props import c14
+    rng = rng_for(ctx['seed'], 'c09-fragment')
+    docs = [a for a, _ in rc.documents(rng, 120 if ctx['tier'] == 'quick' else 1500)] + [p for pair in extra_pairs() for p in pair] + \
+           ['<body>x <ins>in <b>s</b> <del>d &lt;i&gt;</del></ins> y &amp;lt; <script>if (a < b) {}</script><style>a > b {}</style></body>',
+            '<body>&lt;script&gt;alert(1)&lt;/script&gt;<del class="wm-diff"><ins>nested</ins></del></body>']
+    lines, want = [], []
+    skipped = 0
+    for d in docs:
+        try:
+            soup = c14.parse_like_render(d)
+            line = 'diffable_fragment %s' % L([c14.enc_node(c) for c in soup.body.children])
+            want.append((d, h._diffable_fragment(soup.body)))
+            lines.append(line)
+        except c14.OutOfDomain:
+            skipped += 1
+    got = run_driver(lines)
+    bad = 0
+    for (d, w), g in zip(want, got):
+        rep.count(('fragment', d), True)
+        gs = to_str(g) if not isinstance(g, tuple) else None
+        if gs != w:
+            bad += 1
+            if bad <= 2:
+                k = next((i for i, (x, y) in enumerate(zip(gs or '', w)) if x != y), min(len(gs or ''), len(w)))
+                # a fragment in which page text is not escaped is a failing input of the property itself
+                unescaped = ('<script' in w and '&lt;script' in d and '<script' not in d.replace('&lt;script', ''))
+                rep.violation('c09-fragment-%d' % bad, {'what': 'model diffable_fragment and _diffable_fragment differ at offset %d' % k,
+                                                        'correspondence': 'Model/RenderDoc.v diffable_fragment vs _diffable_fragment(soup.body)',
+                                                        'model_around': (gs or '')[max(0, k - 60):k + 60], 'implementation_around': w[max(0, k - 60):k + 60],
+                                                        'a_text': d, 'b_text': d}, no_input=not unescaped)
+    rep.obligation('correspondence c09: model diffable_fragment = _diffable_fragment, char for char, on %d page bodies (%d outside the modelled domain)' % (len(want), skipped), bad == 0)
+
+
 def run(rep, ctx):
     run_render(rep, ctx, 'c09', [('active-content', rc.c09_failures)], n_quick=350, n_thorough=6000, extra_pairs=extra_pairs(),
                corr_fraction=0.5)
+    if ctx['model_available']:
+        fragment_correspondence(rep, ctx)
 
 
 def replay(rep, data):
